@@ -2,7 +2,10 @@ import Gallia.Proofs.Lemmas.VEcuGenuine
 import Gallia.Proofs.Lemmas.VEcuModel
 import Gallia.Proofs.Lemmas.VEcuSA
 import Gallia.Proofs.Lemmas.ServerHist
+import Gallia.Proofs.Lemmas.VEcuConn
 import Gallia.Gen.C14Handlers
+import Gallia.Gen.C14Partial
+import Gallia.Model.VEcuPartial
 /-
   C14 - the virtual ECU survives any request and the client accepts its answers.
 
@@ -11,8 +14,11 @@ import Gallia.Gen.C14Handlers
   per-request oracle `Orc`).  The client is C03's `parsePdu`, "well-formed" is C02's `decodeResp` / `encodeResp`.
 
   "Neither raises nor drops the connection" is a statement about Python exceptions: the model has the three exception
-  sites of the rule chain as outcomes (`Outcome.crash`) and they are proved unreachable; every other exception is
-  excluded by the correspondence run (harness/props/C14.py), not by a theorem. In that sense the property is *partial*.
+  sites of the rule chain as outcomes (`Outcome.crash`) and they are proved unreachable; the connection loop
+  `TCPUDSServerTransport.handle_client` with its `except` arm and `break`s is `Model/VEcuConn.lean` (last section:
+  what ends the loop exactly, the reply line, one `client.request` end to end, nothing stale after a suppressed reply);
+  every other exception inside a handler is excluded by the correspondence run (harness/props/C14.py), not by a
+  theorem. In that sense the property is *partial*.
 -/
 namespace Gallia.C14
 open Gallia Gallia.Server Gallia.IsoDefault Gallia.VEcu Gallia.UdsMatch
@@ -568,5 +574,377 @@ example : (vecuHandleSE allOn exM ⟨⟨3, none, some (1, [0x42])⟩, 8⟩ ⟨48
       .ok ⟨3, some 1, some (2, [])⟩ (some (.sa 2 [])) ∧
     (vecuHandleSE allOn exM ⟨⟨3, none, some (1, [0x42])⟩, 8⟩ ⟨49, 50, [0x27, 0x02, 0x42], {}⟩).2 =
       .ok ⟨1, none, none⟩ (some (.neg 0x27 0x7F)) := by decide +kernel
+
+/-! ## the handlers with their Python-level partial operations (`Model/VEcuPartial.lean`) -/
+
+/-- (T) every operation of the request path that can raise, per function and in source order, regenerated from the AST
+    of server.py on every run: a new subscript, slice, division, `to_bytes` / `struct` / `decode` call, `assert`, `raise`
+    or read through the optional `last_sa_response` in `handle_client`, `handle_request`, `respond_after_default`,
+    `update_state`, a handler or `random_payload` breaks this theorem; so does a third class below
+    `_SecurityAccessRequest` (it would reach the `raise AssertionError` of `security_access`) -/
+theorem partial_ops_agree : Gen.C14Partial.partialOps = [
+  ("TCPUDSServerTransport.handle_client", [("call", "line.decode"), ("call", "unhexlify"), ("div", "sum(response_times) / len(response_times)")]),
+  ("UDSServerTransport.handle_request", []),
+  ("RandomUDSServer.respond_after_default", []),
+  ("RandomUDSServer.update_state", []),
+  ("RandomUDSServer.ecu_reset", []),
+  ("RandomUDSServer.security_access", [("optattr", "self.state.last_sa_response.security_access_type"), ("optattr", "self.state.last_sa_response.security_seed"), ("raise", "AssertionError")]),
+  ("RandomUDSServer.routine_control", []),
+  ("RandomUDSServer.read_data_by_identifier", []),
+  ("RandomUDSServer.write_data_by_identifier", []),
+  ("RandomUDSServer.input_output_control_by_identifier", []),
+  ("RandomUDSServer.clear_diagnostic_information", []),
+  ("RandomUDSServer.read_dtc_information", [("assert", "request.service_id == UDSIsoServices.ReadDTCInformation")]),
+  ("RNG.random_payload", [])] ∧
+    Gen.C14Partial.securityAccessClasses = ["RequestSeedRequest", "SendKeyRequest"] := by decide
+
+/-- **no handler raises, on any parsed request, in any state, for any oracle**: evaluated in Python's order with every
+    partial operation of `partial_ops_agree` able to fail (`AttributeError` on a `None` seed memory, the `AssertionError`
+    of `security_access`, the `assert` of `read_dtc_information`), `respond_after_default` returns - and returns what
+    `typedHandler` (the model the other theorems are about) returns -/
+theorem handler_never_raises (o : Orc) (st : SrvState) (r : UdsReq.Req) :
+    typedHandlerE o st r = .ok (typedHandler o st r) := by
+  cases r with
+  | sendKey lvl key sup =>
+    cases h : st.lastSA with
+    | none => simp [typedHandlerE, isSecurityAccess, securityAccessE, typedHandler, sendKey, h, bind, Except.bind, pure, Except.pure]
+    | some p =>
+      obtain ⟨t0, seed⟩ := p
+      simp only [typedHandlerE, isSecurityAccess, securityAccessE, typedHandler, sendKey, h, optAttr, bind, Except.bind, pure, Except.pure,
+        Option.isNone_some, Bool.false_eq_true, ↓reduceIte]
+      by_cases h1 : lvl ≠ t0 + 1
+      · simp [h1]
+      · simp only [h1, decide_false, Bool.false_eq_true, ↓reduceIte]
+        by_cases h2 : key = seed <;> simp [h2]
+  | raw b =>
+    simp only [typedHandlerE, isSecurityAccess, typedHandler, readDtcE, sidOf, UdsReq.encode, Bool.false_eq_true, ↓reduceIte]
+    cases b with
+    | nil => simp
+    | cons x t => by_cases hx : x = 0x19 <;> simp [hx]
+  | dtcByMask sf mask sup =>
+    by_cases hs : sf = dtcByStatusMask <;>
+      simp [typedHandlerE, isSecurityAccess, typedHandler, readDtcE, sidOf, UdsReq.encode, hs]
+  | clearDDDI d sup => cases d <;> simp [typedHandlerE, isSecurityAccess, typedHandler, sidOf, UdsReq.encode]
+  | _ => simp [typedHandlerE, isSecurityAccess, securityAccessE, typedHandler, readDtcE, sidOf, UdsReq.encode]
+
+/-- **never raises, over the richer outcome type**: for every model, every state whose session is offered, every
+    non-empty request and every oracle neither the rule chain (two asserts, one index error) nor the handler the chain
+    lets the request through to (attribute of `None`, two assertion sites) raises -/
+theorem never_raises_py (m : Model) (o : Orc) (st : SrvState) (b : Bytes) (hr : Ready m st) (hb : b ≠ []) :
+    (∀ c, vecuRespond m o st b ≠ .crash c) ∧ (∀ e, typedHandlerE o st (UdsReq.decode b) ≠ .error e) ∧
+      typedHandlerE o st (UdsReq.decode b) = .ok (typedHandler o st (UdsReq.decode b)) := by
+  refine ⟨never_raises m o st b hr hb, ?_, handler_never_raises o st _⟩
+  intro e h
+  rw [handler_never_raises] at h
+  cases h
+
+/-- the error outcomes are real outcomes of the pieces (reached when the guards are taken away): a key request with no
+    seed memory read without the `is None` test, `security_access` / `read_dtc_information` on a foreign request; and
+    the guarded whole answers a key without seed memory with requestSequenceError -/
+example : (optAttr (none : Option (Nat × Bytes)) = .error .attributeOfNone) ∧
+    securityAccessE {} s1 (.rdbi [1]) = .error .assertion ∧ readDtcE {} (.rdbi [1]) = .error .assertion ∧
+    typedHandlerE {} s1 (.sendKey 2 [1] false) = .ok (some (.neg 0x27 0x24)) := ⟨rfl, rfl, rfl, rfl⟩
+
+/-! ## the whole connection: `TCPUDSServerTransport.handle_client` between the virtual ECU and the client's line
+    layer (`Model/VEcuConn.lean`) -/
+
+section Conn
+open Gallia.VEcuConn Gallia.Lines
+
+/-- one `handle_request` on a ready server with a non-empty request: it returns (does not raise), stores the second
+    clock read, the state afterwards is ready again, and the answer is `vecuRespond`'s in the state after the
+    inactivity rule -/
+theorem handleSE_served (m : Model) (hm : ModelOK m) (ts : TState) (hr : Ready m ts.st) (q : CItem) (hb : q.bytes ≠ []) :
+    ∃ st' reply st0, vecuHandleSE allOn m ts q = (⟨st', q.stop⟩, .ok st' reply) ∧ Ready m st' ∧ Ready m st0 ∧
+      vecuRespond m q.orc st0 q.bytes = .ok st' reply := by
+  have hlv := never_leaves m q.orc ts q.start q.bytes hm hr hb
+  unfold vecuHandleAt handleAt at hlv
+  unfold vecuHandleSE handleSE
+  simp only at hlv ⊢
+  have hr0 : Ready m (if q.start - ts.lastActive > idleLimit then ts.st.reset else ts.st) := by
+    split
+    · exact ⟨hr.wf, hm.closed.dflt, hr.listed⟩
+    · exact hr
+  generalize (if q.start - ts.lastActive > idleLimit then ts.st.reset else ts.st) = st0 at hr0 hlv ⊢
+  cases hres : respond allOn m (vecuHandler q.orc) st0 (mkReq q.bytes) with
+  | crash c => exact absurd hres (C13.respond_never_crashes_allOn m _ st0 _ hr0 hb c)
+  | ok st' reply =>
+    rw [hres] at hlv
+    exact ⟨st', reply, st0, rfl, hlv, hr0, hres⟩
+
+/-- an empty request (an empty or all-whitespace line) makes `handle_request` raise IndexError, in every state -/
+theorem empty_request_raises (m : Model) (ts : TState) (s t : Nat) (o : Orc) :
+    (vecuHandleSE allOn m ts ⟨s, t, [], o⟩).2 = .crash .index := by
+  simp [vecuHandleSE, handleSE, respond, respondWith, respondNoStateWith, mkReq]
+
+/-- **what ends the loop, exactly**: on a loop that is serving a ready server, after any event history (complete lines
+    of any bytes, end of stream), the loop has ended iff some event of the history is one of the four the code names,
+    and the recorded cause is that of the *first* such event: end of stream (`break`), a line longer than the reader's
+    limit (`ValueError` from `readline()` in the `except` arm), a line that is not ASCII hex
+    text of even length (`UnicodeDecodeError` / `binascii.Error` in the `except` arm), an empty request
+    (`IndexError` from `handle_request` in the `except` arm). Nothing else - no non-empty request in any reachable
+    state with any oracle - ends it. -/
+theorem conn_end_exact (m : Model) (hm : ModelOK m) (evs : List Event) :
+    ∀ (c : Conn), c.ended = none → Ready m c.ts.st →
+      (runConn m c evs).1.ended = evs.findSome? (Event.endCause c.limit) ∧ Ready m (runConn m c evs).1.ts.st := by
+  induction evs with
+  | nil => intro c hc hr; exact ⟨by simpa [runConn] using hc, hr⟩
+  | cons e rest ih =>
+    intro c hc hr
+    simp only [runConn, List.findSome?_cons]
+    cases e with
+    | eof tail =>
+      have hd : (serveEof c).ended = some .eof := by simp [serveEof, Conn.alive, hc]
+      simp only [stepConn, Event.endCause, runConn_dead m _ _ hd rest, hd]
+      exact ⟨trivial, by simpa [serveEof, Conn.alive, hc] using hr⟩
+    | line l s t o =>
+      simp only [stepConn, Event.endCause]
+      by_cases hlong : l.length > c.limit
+      · rw [serveLine_long m c hc l hlong s t o]
+        simp only [hlong, ↓reduceIte, runConn_dead m { c with ended := some .tooLong } .tooLong rfl rest]
+        exact ⟨trivial, hr⟩
+      have hl : l.length ≤ c.limit := Nat.le_of_not_gt hlong
+      simp only [hlong, ↓reduceIte]
+      rcases decodeLine_cases l with hbad | ⟨b, hmsg⟩
+      · rw [serveLine_bad m c hc l hl s t o hbad, hbad]
+        simp only [runConn_dead m { c with ended := some .badLine } .badLine rfl rest]
+        exact ⟨trivial, hr⟩
+      · cases b with
+        | nil =>
+          have hcr := empty_request_raises m c.ts s t o
+          generalize hres : vecuHandleSE allOn m c.ts ⟨s, t, [], o⟩ = res at hcr
+          obtain ⟨ts', out⟩ := res
+          simp only at hcr; subst hcr
+          have hts : ts'.st = (vecuHandleSE allOn m c.ts ⟨s, t, [], o⟩).1.st := by rw [hres]
+          rw [serveLine_crash m c hc l hl s t o [] hmsg ts' .index hres, hmsg]
+          simp only [runConn_dead m { c with ts := ts', ended := some (.raised .index) } _ rfl rest]
+          refine ⟨trivial, ?_⟩
+          rw [hts]
+          simp only [vecuHandleSE, handleSE, respond, respondWith, respondNoStateWith, mkReq, List.isEmpty_nil, ↓reduceIte]
+          split
+          · exact ⟨hr.wf, hm.closed.dflt, hr.listed⟩
+          · exact hr
+        | cons b0 bt =>
+          obtain ⟨st', reply, st0, hh, hr', _, _⟩ := handleSE_served m hm c.ts hr ⟨s, t, b0 :: bt, o⟩ (by simp)
+          have hs := serveLine_ok m c hc l hl s t o (b0 :: bt) hmsg _ _ _ hh
+          rw [hs, hmsg]
+          exact ih { c with ts := ⟨st', t⟩, served := c.served + 1 } hc hr'
+
+/-- **the loop is still serving after any history of non-empty requests**: start the ECU with any model `ModelOK`
+    (every model `randomize()` builds: `randomize_model_ok`), open a connection, send any number of lines that decode to
+    non-empty requests - any bytes, any case / surrounding whitespace, any clock readings, every handler call its own
+    oracle -: the loop has not ended, it has served every one of them (so its epilogue cannot divide by zero once one
+    was sent), and the session is still one the model offers -/
+theorem conn_never_ends (m : Model) (hm : ModelOK m) (evs : List Event) (t0 : Nat)
+    (hall : ∀ e ∈ evs, ∃ l s t o b, e = .line l s t o ∧ l.length ≤ 65536 ∧ decodeLine l = .msg b ∧ b ≠ []) :
+    (runConn m (Conn.opened t0) evs).1.ended = none ∧ (runConn m (Conn.opened t0) evs).1.alive = true ∧
+      Ready m (runConn m (Conn.opened t0) evs).1.ts.st := by
+  obtain ⟨h1, h2⟩ := conn_end_exact m hm evs (Conn.opened t0) rfl hm.ready_init
+  have hnone : evs.findSome? (Event.endCause (Conn.opened t0).limit) = none := by
+    rw [List.findSome?_eq_none_iff]
+    intro e he
+    obtain ⟨l, s, t, o, b, rfl, hl, hmsg, hb⟩ := hall e he
+    cases b with
+    | nil => exact absurd rfl hb
+    | cons _ _ => simp [Event.endCause, hmsg, Conn.opened, Nat.not_lt.mpr hl]
+  rw [hnone] at h1
+  exact ⟨h1, by simp [Conn.alive, h1], h2⟩
+
+/-- ... and it counted them: `len(response_times)` is the number of requests, so the division after the loop is
+    defined as soon as one request was served -/
+theorem conn_served_all (m : Model) (hm : ModelOK m) (evs : List Event) :
+    ∀ (c : Conn), c.ended = none → Ready m c.ts.st →
+      (∀ e ∈ evs, ∃ l s t o b, e = .line l s t o ∧ l.length ≤ c.limit ∧ decodeLine l = .msg b ∧ b ≠ []) →
+      (runConn m c evs).1.served = c.served + evs.length := by
+  induction evs with
+  | nil => intro c _ _ _; simp [runConn]
+  | cons e rest ih =>
+    intro c hc hr hall
+    obtain ⟨l, s, t, o, b, rfl, hl, hmsg, hb⟩ := hall e (by simp)
+    obtain ⟨st', reply, st0, hh, hr', _, _⟩ := handleSE_served m hm c.ts hr ⟨s, t, b, o⟩ hb
+    have hs := serveLine_ok m c hc l hl s t o b hmsg _ _ _ hh
+    simp only [runConn, stepConn, hs]
+    rw [ih { c with ts := ⟨st', t⟩, served := c.served + 1 } hc hr' (fun e he => hall e (by simp [he]))]
+    simp only [List.length_cons]; omega
+
+/-- **what the server writes is exactly one line that the client's line layer decodes back to the reply bytes**: for a
+    serving loop on a ready server and any line that decodes to a non-empty request, the bytes written are either
+    nothing (the reply was suppressed) or `hexlify(reply) + "\n"` for the reply `x` of `handle_request`: only
+    lower-case hex digits before the single final newline, `2 * len + 1` bytes, and the client's `read()` on a stream
+    that starts with them returns exactly `x.pdu` and leaves exactly what followed -/
+theorem conn_reply_line_wellformed (m : Model) (hm : ModelOK m) (c : Conn) (hc : c.ended = none) (hr : Ready m c.ts.st)
+    (l : Bytes) (hl : l.length ≤ c.limit) (s t : Nat) (o : Orc) (b : Bytes) (hmsg : decodeLine l = .msg b) (hb : b ≠ []) :
+    ((vecuHandleSE allOn m c.ts ⟨s, t, b, o⟩).2 = .ok (serveLine m c l s t o).1.ts.st none ∧ (serveLine m c l s t o).2 = []) ∨
+    ∃ x, (vecuHandleSE allOn m c.ts ⟨s, t, b, o⟩).2 = .ok (serveLine m c l s t o).1.ts.st (some x) ∧
+      (serveLine m c l s t o).2 = hexB x.pdu ++ [NL] ∧ NL ∉ hexB x.pdu ∧ (∀ ch ∈ hexB x.pdu, isLowerHex ch = true) ∧
+      (hexB x.pdu).length = 2 * x.pdu.length ∧ x.pdu ≠ [] ∧
+      ∀ rest eof, readLine ((serveLine m c l s t o).2 ++ rest) eof = (.msg x.pdu, rest) := by
+  obtain ⟨st', reply, st0, hh, hr', hr0, hresp⟩ := handleSE_served m hm c.ts hr ⟨s, t, b, o⟩ hb
+  have hs := serveLine_ok m c hc l hl s t o b hmsg _ _ _ hh
+  rw [hs, hh]
+  cases reply with
+  | none => exact Or.inl ⟨rfl, rfl⟩
+  | some x =>
+    refine Or.inr ⟨x, rfl, rfl, nl_not_mem_hexB _, hexB_lower _, hexB_length _, ?_, fun rest eof => readLine_enc x.pdu rest eof⟩
+    obtain ⟨y, hy, _, henc⟩ := reply_well_formed m o st0 st' b x hr0 hb hresp
+    intro hnil
+    rw [hnil] at hy
+    have hd : UdsResp.decodeResp [] = .error .empty := by rfl
+    rw [hd] at hy; cases hy
+
+/-- the invariant of the composed system between two `client.request` calls: the loop is serving a ready server and
+    both streams are empty -/
+structure Quiet (m : Model) (s : Sys) : Prop where
+  serving : s.conn.ended = none
+  ready : Ready m s.conn.ts.st
+  sbuf : s.sbuf = []
+  rbuf : s.rbuf = []
+  /-- the reader of the connection was created with asyncio's default limit -/
+  lim : s.conn.limit = 65536
+
+/-- **one `client.request` over the connection**: between quiet points, for any non-empty request, the client's
+    `write` puts exactly one line on the server's stream, the loop reads it back as exactly the request bytes and
+    serves it, and then either the server answered `x` and `client.request` returns the accepted response object `y`,
+    which is the decoded `x` (`encodeResp y = x.pdu`), accepted as the answer to every request object with these bytes -
+    or the reply was suppressed and the client's read times out having consumed nothing. Either way the system is quiet
+    again: the loop serves, nothing is left in either stream. -/
+theorem conn_exchange_accepted (m : Model) (hm : ModelOK m) (s : Sys) (hq : Quiet m s) (q : CItem) (hb : q.bytes ≠ [])
+    (hlen : q.bytes.length ≤ 32768) :
+    Quiet m (VEcuConn.exchange m s q).1 ∧ (VEcuConn.exchange m s q).1.conn.served = s.conn.served + 1 ∧
+    ((∃ x y, serverReply m s.conn q = some (some x) ∧ (VEcuConn.exchange m s q).2 = .accepted y ∧ UdsResp.encodeResp y = x.pdu ∧
+        y.WF ∧ ∀ r : UdsReq.Req, UdsReq.encode r = q.bytes → parsePdu x.pdu r = .accepted y) ∨
+     (serverReply m s.conn q = some none ∧ (VEcuConn.exchange m s q).2 = .timeout)) := by
+  obtain ⟨hc, hr, hsb, hrb, hlim⟩ := hq
+  obtain ⟨st', reply, st0, hh, hr', hr0, hresp⟩ := handleSE_served m hm s.conn.ts hr q hb
+  have hl : (hexB q.bytes).length ≤ s.conn.limit := by rw [hexB_length, hlim]; omega
+  have hs := serveLine_ok m s.conn hc (hexB q.bytes) hl q.start q.stop q.orc q.bytes (decodeLine_hexB _) _ _ _ hh
+  have hpump : serverPump m s.conn (s.sbuf ++ enc q.bytes) q.start q.stop q.orc =
+      ({ s.conn with ts := ⟨st', q.stop⟩, served := s.conn.served + 1 }, lineOf reply, []) := by
+    unfold serverPump
+    rw [hsb, List.nil_append]
+    have := cutLine_enc q.bytes []
+    rw [List.append_nil] at this
+    rw [this]
+    simp only [hs]
+  have hsr : serverReply m s.conn q = some reply := by simp [serverReply, hh]
+  have hex : VEcuConn.exchange m s q =
+      (⟨{ s.conn with ts := ⟨st', q.stop⟩, served := s.conn.served + 1 }, [], (clientRead (lineOf reply) q.bytes).2⟩,
+       (clientRead (lineOf reply) q.bytes).1) := by
+    simp only [VEcuConn.exchange, hpump, hrb, List.nil_append]
+  rw [hex, hsr]
+  cases reply with
+  | none =>
+    simp only [lineOf, clientRead_empty]
+    exact ⟨⟨hc, hr', rfl, rfl, hlim⟩, by trivial, Or.inr ⟨by trivial, by trivial⟩⟩
+  | some x =>
+    obtain ⟨y, hdec, hacc⟩ := C03.genuine_accepted _ (dec_wf q.bytes) x.pdu (server_reply_genuine m q.orc st0 st' q.bytes x hr0 hb hresp)
+    have hread : clientRead (enc x.pdu) q.bytes = (.accepted y, []) := by
+      have := readLine_enc x.pdu [] false
+      rw [List.append_nil] at this
+      simp only [clientRead, this, clientVerdict, hacc]
+    simp only [lineOf, hread]
+    refine ⟨⟨hc, hr', rfl, rfl, hlim⟩, by trivial, Or.inl ⟨x, y, by trivial, by trivial, C02.encodeResp_decodeResp _ _ hdec, C02.decodeResp_wf _ _ hdec, ?_⟩⟩
+    intro r hrb2
+    rw [C03.parsePdu_bytes r (UdsReq.decode q.bytes) (by rw [hrb2, enc_dec]) x.pdu]
+    exact hacc
+
+/-- every history of `client.request` calls with non-empty requests keeps the system quiet -/
+theorem conn_history_quiet (m : Model) (hm : ModelOK m) (hist : List CItem) :
+    ∀ (s : Sys), Quiet m s → (∀ q ∈ hist, q.bytes ≠ [] ∧ q.bytes.length ≤ 32768) → Quiet m (runExchanges m s hist).1 ∧
+      (runExchanges m s hist).2.length = hist.length ∧
+      ∀ r ∈ (runExchanges m s hist).2, r = .timeout ∨ ∃ y, r = .accepted y := by
+  induction hist with
+  | nil => intro s hq _; exact ⟨hq, rfl, by simp [runExchanges]⟩
+  | cons q rest ih =>
+    intro s hq hall
+    obtain ⟨hq', _, hres⟩ := conn_exchange_accepted m hm s hq q (hall q (by simp)).1 (hall q (by simp)).2
+    obtain ⟨h1, h2, h3⟩ := ih _ hq' (fun p hp => hall p (by simp [hp]))
+    simp only [runExchanges]
+    refine ⟨h1, by simp [h2], ?_⟩
+    intro r hr
+    simp only [List.mem_cons] at hr
+    rcases hr with rfl | hr
+    · rcases hres with ⟨x, y, _, hy, _⟩ | ⟨_, ht⟩
+      · exact Or.inr ⟨y, hy⟩
+      · exact Or.inl ht
+    · exact h3 r hr
+
+/-- **a suppressed reply leaves nothing a later request could mistake for its answer**: on a freshly opened
+    connection, after any history of non-empty requests - in particular one ending in a request whose reply was
+    suppressed (the client timed out) - the client's stream is empty, the loop is serving, and the NEXT
+    `client.request`, whatever it is, returns the decoded reply the server gave to that very request (or times out
+    because that very reply was suppressed): no exchange ever reads the answer to an earlier one -/
+theorem conn_no_stale_after_suppress (m : Model) (hm : ModelOK m) (hist : List CItem) (t0 : Nat)
+    (hall : ∀ q ∈ hist, q.bytes ≠ [] ∧ q.bytes.length ≤ 32768) (q : CItem) (hb : q.bytes ≠ []) (hlen : q.bytes.length ≤ 32768) :
+    let s := (runExchanges m (Sys.opened t0) hist).1
+    s.rbuf = [] ∧ s.sbuf = [] ∧ s.conn.ended = none ∧ s.conn.served = hist.length ∧
+    ((∃ x y, serverReply m s.conn q = some (some x) ∧ (VEcuConn.exchange m s q).2 = .accepted y ∧ UdsResp.encodeResp y = x.pdu) ∨
+     (serverReply m s.conn q = some none ∧ (VEcuConn.exchange m s q).2 = .timeout)) := by
+  intro s
+  have hq0 : Quiet m (Sys.opened t0) := ⟨rfl, hm.ready_init, rfl, rfl, rfl⟩
+  obtain ⟨hq, _, _⟩ := conn_history_quiet m hm hist _ hq0 hall
+  obtain ⟨_, _, hres⟩ := conn_exchange_accepted m hm s hq q hb hlen
+  have hserved : ∀ (hist : List CItem) (s0 : Sys), Quiet m s0 → (∀ q ∈ hist, q.bytes ≠ [] ∧ q.bytes.length ≤ 32768) →
+      (runExchanges m s0 hist).1.conn.served = s0.conn.served + hist.length := by
+    intro hist
+    induction hist with
+    | nil => intro s0 _ _; simp [runExchanges]
+    | cons p rest ih =>
+      intro s0 h0 hall
+      obtain ⟨h1, h2, _⟩ := conn_exchange_accepted m hm s0 h0 p (hall p (by simp)).1 (hall p (by simp)).2
+      simp only [runExchanges]
+      rw [ih _ h1 (fun r hr => hall r (by simp [hr])), h2]
+      simp only [List.length_cons]; omega
+  refine ⟨hq.rbuf, hq.sbuf, hq.serving, ?_, ?_⟩
+  · have h := hserved hist (Sys.opened t0) hq0 hall
+    rw [show (Sys.opened t0).conn.served = 0 from rfl, Nat.zero_add] at h
+    exact h
+  · rcases hres with ⟨x, y, h1, h2, h3, _⟩ | h
+    · exact Or.inl ⟨x, y, h1, h2, h3⟩
+    · exact Or.inr h
+
+/-- the event view and the exchange view are the same loop: the server side of a `client.request` history is
+    `runConn` over the lines the client wrote -/
+theorem conn_exchanges_are_events (m : Model) (hm : ModelOK m) (hist : List CItem) :
+    ∀ (s : Sys), Quiet m s → (∀ q ∈ hist, q.bytes ≠ [] ∧ q.bytes.length ≤ 32768) →
+      (runExchanges m s hist).1.conn = (runConn m s.conn (hist.map fun q => Event.line (hexB q.bytes) q.start q.stop q.orc)).1 := by
+  induction hist with
+  | nil => intro s _ _; rfl
+  | cons q rest ih =>
+    intro s hq hall
+    obtain ⟨hq', _, _⟩ := conn_exchange_accepted m hm s hq q (hall q (by simp)).1 (hall q (by simp)).2
+    have hpump : (VEcuConn.exchange m s q).1.conn = (serveLine m s.conn (hexB q.bytes) q.start q.stop q.orc).1 := by
+      unfold VEcuConn.exchange serverPump
+      rw [hq.sbuf, List.nil_append]
+      have := cutLine_enc q.bytes []
+      rw [List.append_nil] at this
+      rw [this]
+    simp only [runExchanges, List.map_cons, runConn, stepConn]
+    rw [ih _ hq' (fun p hp => hall p (by simp [hp])), hpump]
+
+/-- the division after the loop is defined once a request was served: after any non-empty history of non-empty
+    requests `len(response_times)` is not zero -/
+theorem conn_epilogue_defined (m : Model) (hm : ModelOK m) (evs : List Event) (t0 : Nat) (hne : evs ≠ [])
+    (hall : ∀ e ∈ evs, ∃ l s t o b, e = .line l s t o ∧ l.length ≤ 65536 ∧ decodeLine l = .msg b ∧ b ≠ []) :
+    (runConn m (Conn.opened t0) evs).1.epilogueRaises = false := by
+  have h := conn_served_all m hm evs (Conn.opened t0) rfl hm.ready_init hall
+  have hl : 0 < evs.length := List.length_pos_iff.mpr hne
+  unfold Conn.epilogueRaises
+  rw [h]
+  simp only [Conn.opened, Nat.zero_add, beq_eq_false_iff_ne, ne_eq]
+  omega
+
+/-- non-vacuity: TesterPresent answered, TesterPresent with the suppress bit (timeout, nothing left), a session change
+    read back as the answer to itself; then an all-whitespace line ends the loop with IndexError; a line of odd length
+    ends a fresh loop; so does a line of five bytes on a reader with limit 4; end of stream on a loop that served
+    nothing makes the epilogue divide by zero -/
+example : ((runExchanges exM (Sys.opened 0) [⟨1, 1, [0x3E, 0x00], {}⟩, ⟨2, 2, [0x3E, 0x80], {}⟩, ⟨3, 3, [0x10, 0x03], {}⟩]).2 =
+      [.accepted .testerPresent, .timeout, .accepted (.dsc 3 [])]) ∧
+    (runConn exM (Conn.opened 0) [.line [0x33, 0x45, 0x30, 0x30, 0x0D] 1 1 {}, .line [0x20] 2 2 {}]).1.ended = some (.raised .index) ∧
+    (runConn exM (Conn.opened 0) [.line [0x33, 0x65, 0x30] 1 1 {}]).1.ended = some .badLine ∧
+    (runConn exM (Conn.opened 0 4) [.line [0x33, 0x65, 0x30, 0x30, 0x20] 1 1 {}]).1.ended = some .tooLong ∧
+    (runConn exM (Conn.opened 0) [.eof []]).1.epilogueRaises = true := by decide +kernel
+
+end Conn
 
 end Gallia.C14
